@@ -150,7 +150,7 @@ func suiteFlattenRecords(procs [][]suiteEvent) []*flattenRec {
 				o := flattenOpts{}
 				if len(e.Args) > 1 {
 					o.Minimal = strings.Contains(e.Args[1], "minimal=true")
-					o.Expand = strings.Contains(e.Args[1], "expand=true") && !o.Minimal
+					o.Expand = strings.Contains(e.Args[1], "expand=true")
 					o.RemoveUnused = strings.Contains(e.Args[1], "removeUnused=true")
 					o.KeepNames = strings.Contains(e.Args[1], "keepNames=true")
 				}
